@@ -79,6 +79,8 @@ def run(ctx, lean, findings):
     drv = ctx.get_driver() if ctx.model_available else None
     # (I5) synthetic rule tables
     for _ in range(ctx.budget(60, 2500) * (3 if ctx.escalate else 1)):
+        if ctx.tier == 'thorough' and not ctx.escalate and ctx.elapsed() > 380:
+            break
         rules = pg.gen_rules(rng)
         for mode in MODES[1:]:
             if mode == 'MAXIMAL' and len(rules) > 7 and ctx.tier == 'quick':
@@ -97,7 +99,7 @@ def run(ctx, lean, findings):
             for mode in MODES[1:]:
                 if not (mode == 'MAXIMAL' and len(rules) > 10):
                     labels_case(ctx, drv, rules, mode, 'parsed')
-        if ctx.tier == 'quick' and ctx.elapsed() > 80 and not ctx.escalate:
+        if not ctx.escalate and ctx.elapsed() > (80 if ctx.tier == 'quick' else 780):
             break
     for f in findings:
         if f.get('status') == 'open' and f.get('replay'):
